@@ -456,7 +456,26 @@ pub fn check(c: &Case) -> Verdict {
         0 => {
             let mut r = NsReader::from_reader(&data[..]);
             apply_cfg(r.config_mut(), cfg);
-            drive!(r, n, r.read_event(), r.read_resolved_event().map(|(res, e)| (res_back(own_res(&res)), e)), r.read_to_end(QName(n.as_bytes())).map(|_| ()).map_err(|e| format!("{:?}", e)), r.read_text(QName(n.as_bytes())).map(|_| ()).map_err(|e| format!("{:?}", e)));
+            // before some calls the reader is replaced by a clone of itself: a copy of a reader carries
+            // the same open scopes and bindings, everything after it must be judged the same
+            let every = 2 + data.len() % 5;
+            drive!(
+                r,
+                n,
+                {
+                    if call % every == 1 {
+                        let copy = r.clone();
+                        r = copy;
+                    }
+                    r.read_event()
+                },
+                {
+                    if call % every == 1 {
+                        let copy = r.clone();
+                        r = copy;
+                    }
+                    r.read_resolved_event().map(|(res, e)| (res_back(own_res(&res)), e))
+                }, r.read_to_end(QName(n.as_bytes())).map(|_| ()).map_err(|e| format!("{:?}", e)), r.read_text(QName(n.as_bytes())).map(|_| ()).map_err(|e| format!("{:?}", e)));
         }
         1 => {
             let mut r = NsReader::from_reader(ChunkedBufRead::new(&data, cuts));
